@@ -31,11 +31,17 @@ func (pass *ConstantToEnum) processObject(_ *Visitor, _ *ast.Schema, object ast.
 		return object, nil
 	}
 
+	constant, isString := object.Type.Scalar.Value.(string)
+	if !isString {
+		// a `string` scalar holding a constant of another type: not something to turn into a string enum
+		return object, nil
+	}
+
 	object.Type = ast.NewEnum([]ast.EnumValue{
 		{
 			Type:  ast.String(),
-			Name:  object.Type.Scalar.Value.(string),
-			Value: object.Type.Scalar.Value.(string),
+			Name:  constant,
+			Value: constant,
 		},
 	})
 	object.AddToPassesTrail("ConstantToEnum")
